@@ -13,6 +13,7 @@ import (
 	"github.com/risor-io/risor/parser"
 	"github.com/risor-io/risor/verif/fw"
 	"github.com/risor-io/risor/verif/sim"
+	"github.com/risor-io/risor/vm"
 )
 
 // ---------------------------------------------------------------------------
@@ -223,7 +224,7 @@ func runC06(rc *fw.RunCtx) {
 	g := rc.Tape.Stream("gen")
 	f := rc.Tape.Stream("fault")
 	prog := genBlock(g)
-	api := g.Intn(3) // 0,1: risor.Eval   2: risor.Call(entry)
+	api := g.Intn(4) // 0,1: risor.Eval   2: risor.Call(entry)   3: risor.EvalCode of precompiled code on a reused VM
 	useDeadline := f.Chance(1, 3)
 	cancelStep := 0
 	switch f.Intn(4) {
@@ -292,6 +293,28 @@ func runC06(rc *fw.RunCtx) {
 				}
 				return risor.Call(ctx, code, "entry", nil, opts...)
 			}
+			if api == 3 {
+				// precompiled (so the parser's own context check is out of the way)
+				// and on a VM that has already completed a run
+				ast, err := parser.Parse(context.Background(), prog.Src)
+				if err != nil {
+					return nil, fmt.Errorf("harness: parse: %w", err)
+				}
+				cfg := risor.NewConfig(opts...)
+				code, err := compiler.Compile(ast, cfg.CompilerOpts()...)
+				if err != nil {
+					return nil, fmt.Errorf("harness: compile: %w", err)
+				}
+				machine, err := vm.NewEmpty()
+				if err != nil {
+					return nil, fmt.Errorf("harness: %w", err)
+				}
+				ropts := append(append([]risor.Option{}, opts...), risor.WithVM(machine))
+				if _, err := risor.Eval(context.Background(), "1 + 1", ropts...); err != nil {
+					return nil, fmt.Errorf("harness: warm-up: %w", err)
+				}
+				return risor.EvalCode(ctx, code, ropts...)
+			}
 			return risor.Eval(ctx, prog.Src, opts...)
 		})
 	})
@@ -341,6 +364,7 @@ func runC06(rc *fw.RunCtx) {
 	verdict := s.Run()
 	alive := aliveExcept(s)
 	ticksEnd := h.Ticks()
+	returned := out.Done // before teardown, which makes everything return
 	stuck := s.Shutdown(cancel)
 	rc.AbsorbSim(s, strat.Name())
 	rc.NonTrivial = cancelSeen >= 0 && liveAtCancel > 0
@@ -359,7 +383,7 @@ func runC06(rc *fw.RunCtx) {
 	}
 	rc.Sample = map[string]any{
 		"program":  prog.Src,
-		"api":      []string{"risor.Eval", "risor.Eval", "risor.Call(entry)"}[api],
+		"api":      []string{"risor.Eval", "risor.Eval", "risor.Call(entry)", "risor.EvalCode(precompiled, reused VM)"}[api],
 		"fault":    fmt.Sprintf("%s at step %d (observed at %d), watcher delay %d", kind, cancelStep, cancelSeen, watcherDelay),
 		"schedule": s.RenderTrace(40),
 		"strategy": strat.Name(),
@@ -403,7 +427,7 @@ func runC06(rc *fw.RunCtx) {
 		}
 		return strings.Join(ks, "+")
 	}
-	if !out.Done {
+	if !returned {
 		rc.Violate("liveness/eval-not-returned", "cancel observed at step %d; after %d further steps (bound %d, verdict %s) the call had not returned; alive: %s",
 			cancelSeen, s.Step-cancelSeen, bound, verdict, describe(alive))
 		return
